@@ -9,7 +9,8 @@ from .C15 import u_get_cell_size  # noqa: F401  (cell-size derivation, shared wi
 from .C13 import u_query_terminal  # noqa: F401  (what was queued before a query is discarded before the request is written)
 
 CTL, UTILS, KITTY, ITERM, IMGINIT = "_ctlseqs.py", "utils.py", "image/kitty.py", "image/iterm2.py", "image/__init__.py"
-TRUSTED = ["the reply regexes (RGB_SPEC_re, XTVERSION_re, KITTY_RESPONSE_re) extract the documented fields from a well-formed reply (assumed; group extraction is modelled, not the regex engine)",
+TRUSTED = ["the clock: monotonic() never goes back, and a select() with a finite wait that returns nothing ready has waited for all of it",
+           "the reply regexes (RGB_SPEC_re, XTVERSION_re, KITTY_RESPONSE_re) extract the documented fields from a well-formed reply (assumed; group extraction is modelled, not the regex engine)",
            "a terminal answers each supported query with one well-formed reply; query_terminal returns None when queries are disabled"]
 ASSUMPTIONS = []
 NOT_DECIDED = ["wall-clock behaviour: whether replies arriving after arbitrary delays land before the time-out (select / monotonic clock)",
